@@ -153,6 +153,8 @@ def run(ctx, rep):
             rep.check("C11.tab", "%s: reader(writer(%s)) == %s" % (ty, k, k), res[0] == "ok" and show(res[1]) == k, loc_of(rb), "", "code %s reads back as %s" % (code, res,))
 
     # ---- C11.panic ---------------------------------------------------------------------------------------------------
+    from rules import invlib
+    invlib.newtype_invariant(ctx, rep, "C11")
     auditlib.panic_audit(ctx, rep, "C11", ["G_mw"], floor_sites=90)
 
 
